@@ -30,7 +30,7 @@ ASSUMPTIONS = ["compile.py has no -i option; that combination is not generated",
 
 
 def budget(tier):
-    return {"examples": 176 if tier == "quick" else 4000, "wall_s": 140 if tier == "quick" else 1700}
+    return {"examples": 176 if tier == "quick" else 4000, "wall_s": 140 if tier == "quick" else 900}
 
 
 @st.composite
